@@ -177,6 +177,88 @@ var lazyVal = sync.OnceValue(func() int {
 // Lazy uses sync.OnceValue.
 func Lazy() int { return lazyVal() }
 
+// SelectMerge merges two producers with select until both channels are closed.
+func SelectMerge(n int) int {
+	a, b := make(chan int), make(chan int)
+	go func() {
+		for i := 1; i <= n; i++ {
+			a <- i
+		}
+		close(a)
+	}()
+	go func() {
+		for i := 1; i <= n; i++ {
+			b <- i * 10
+		}
+		close(b)
+	}()
+	s := 0
+	for a != nil || b != nil {
+		select {
+		case v, ok := <-a:
+			if !ok {
+				a = nil
+				continue
+			}
+			s += v
+		case v, ok := <-b:
+			if !ok {
+				b = nil
+				continue
+			}
+			s += v
+		}
+	}
+	return s
+}
+
+// NonBlocking uses select with default for try-send / try-receive.
+func NonBlocking(n int) int {
+	ch := make(chan int, 1)
+	sent := 0
+	for i := 0; i < n; i++ {
+		select {
+		case ch <- i:
+			sent++
+		default:
+		}
+		select {
+		case <-ch:
+		default:
+			sent--
+		}
+	}
+	return sent
+}
+
+// Quit: a worker that serves requests until told to quit, over select with a send case.
+func Quit(n int) int {
+	req := make(chan int)
+	resp := make(chan int)
+	quit := make(chan struct{})
+	go func() {
+		acc := 0
+		for {
+			select {
+			case v := <-req:
+				acc += v
+			case resp <- acc:
+			case <-quit:
+				return
+			}
+		}
+	}()
+	for i := 1; i <= n; i++ {
+		req <- i
+	}
+	v := 0
+	for v != n*(n+1)/2 {
+		v = <-resp
+	}
+	close(quit)
+	return v
+}
+
 // ---------------- defective ----------------
 
 var racy int
@@ -317,4 +399,35 @@ func FirstError(xs []int) int {
 	}
 	wg.Wait()
 	return first
+}
+
+// FoundOrDone: workers report a hit on a buffered channel, a helper closes done when all
+// workers have finished, the caller selects on both: when both are ready the choice is
+// random, so a hit can be reported as a miss.
+func FoundOrDone(n int) int {
+	found := make(chan struct{}, 1)
+	done := make(chan struct{})
+	var wg sync.WaitGroup
+	for i := 0; i < n+1; i++ {
+		wg.Add(1)
+		go func(i int) {
+			defer wg.Done()
+			if i == n {
+				select {
+				case found <- struct{}{}:
+				default:
+				}
+			}
+		}(i)
+	}
+	go func() {
+		wg.Wait()
+		close(done)
+	}()
+	select {
+	case <-found:
+		return 1
+	case <-done:
+		return 0
+	}
 }
